@@ -97,11 +97,12 @@ type Contracts struct {
 	Models      map[string]*Model
 	Lemmas      map[string]*Lemma
 	Axioms      []*Axiom
+	SortOrders  map[string]string // slice type -> spec function "less(a, b)" (assumed contract of sort.Sort for that type)
 	Order       []string
 	Text        string
 }
 
-var headerKW = map[string]bool{"addressable": true, "ghostvar": true, "uf": true, "func": true, "interface": true, "extern": true, "model": true, "spec": true, "lemma": true, "axiom": true}
+var headerKW = map[string]bool{"addressable": true, "ghostvar": true, "uf": true, "func": true, "interface": true, "extern": true, "model": true, "spec": true, "lemma": true, "axiom": true, "sortorder": true}
 var clauseKW = map[string]bool{"noinference": true, "localonly": true, "observe": true, "requires": true, "ensures": true, "modifies": true, "safe": true, "trusted": true, "loop": true, "at": true, "crash_invariant": true, "fresh": true}
 
 func isBareWord(t string) bool {
@@ -127,7 +128,7 @@ func parseContractsFile(path string) (*Contracts, error) {
 }
 
 func parseContracts(text string) (c *Contracts, err error) {
-	c = &Contracts{Ghosts: map[string]string{}, UFs: map[string]*UFDecl{}, Funcs: map[string]*FuncContract{}, Specs: map[string]*SpecFunc{}, Models: map[string]*Model{}, Lemmas: map[string]*Lemma{}, Text: text}
+	c = &Contracts{Ghosts: map[string]string{}, UFs: map[string]*UFDecl{}, Funcs: map[string]*FuncContract{}, Specs: map[string]*SpecFunc{}, Models: map[string]*Model{}, Lemmas: map[string]*Lemma{}, SortOrders: map[string]string{}, Text: text}
 	defer func() {
 		if r := recover(); r != nil {
 			if pe, ok := r.(parseErr); ok {
@@ -187,6 +188,13 @@ func parseContracts(text string) (c *Contracts, err error) {
 			cur, curLemma = fc, nil
 		case "addressable":
 			c.Addressable = append(c.Addressable, strings.TrimSpace(rest))
+			cur, curLemma = nil, nil
+		case "sortorder":
+			n, t := splitFirst(rest)
+			if n == "" || t == "" {
+				panic(parseErr(fmt.Sprintf("line %d: sortorder <slice type> <spec function>", it.line)))
+			}
+			c.SortOrders[n] = strings.TrimSpace(t)
 			cur, curLemma = nil, nil
 		case "ghostvar":
 			n, t := splitFirst(rest)
